@@ -52,8 +52,12 @@ SopClass(V) == LET u4 == BDiv(V, R256)  r == BMod(V, R256)
                   ELSE IF u4 = <<1>> THEN (IF BLess(r, Q) THEN "sop.u4=1.r<q" ELSE "sop.u4=1.r>=q")
                   ELSE "sop.u4>=2"
 ClsOf(e) ==
-    CASE e.op = "f.mul" -> LET V == Redc(e.F, BMul(MontOf(e.F, FromBE(e.a)), MontOf(e.F, FromBE(e.b))))
+    CASE e.op = "f.mul" -> LET S == BMul(MontOf(e.F, FromBE(e.a)), MontOf(e.F, FromBE(e.b)))
+                               V == Redc(e.F, S)
+                               kq == BDiv(BSub(BMul(V, R256), S), FMod(e.F))          \* the Montgomery quotient: digits computed by the reduction loop
+                               zd == \E i \in 1..3 : SubSeq(kq \o <<0,0,0,0,0,0,0,0,0,0,0,0,0,0,0,0,0,0,0,0,0,0,0,0,0,0,0,0,0,0,0,0>>, 8 * i + 1, 8 * i + 8) = <<0,0,0,0,0,0,0,0>>
                            IN { IF ~BLess(V, R256) THEN "mul.carry2" ELSE IF ~BLess(V, FMod(e.F)) THEN "mul.ge_p" ELSE "mul.lt_p" }
+                              \cup (IF zd /\ S # <<>> THEN {"mul.qdigit0"} ELSE {})
       [] e.op = "f.add" -> LET s == BAdd(MontOf(e.F, FromBE(e.a)), MontOf(e.F, FromBE(e.b)))
                            IN { IF ~BLess(s, R256) THEN "add.carry" ELSE IF s = FMod(e.F) THEN "add.eq_p" ELSE IF ~BLess(s, FMod(e.F)) THEN "add.ge_p" ELSE "add.lt_p" }
       [] e.op = "f.sub" -> LET ma == MontOf(e.F, FromBE(e.a))  mb == MontOf(e.F, FromBE(e.b))
@@ -76,7 +80,7 @@ ClsOf(e) ==
                  cls(S4(BMul(a00, b10), BMul(n01, b11), BMul(a10, b00), BMul(n11, b01))),
                  cls(S4(BMul(a00, b11), BMul(a01, b10), BMul(a10, b01), BMul(a11, b00))) }
       [] OTHER -> {}
-CovNames == {"mul.carry2", "mul.ge_p", "mul.lt_p", "add.carry", "add.eq_p", "add.ge_p", "add.lt_p", "sub.equal", "sub.borrow", "sub.plain",
+CovNames == {"mul.qdigit0", "mul.carry2", "mul.ge_p", "mul.lt_p", "add.carry", "add.eq_p", "add.ge_p", "add.lt_p", "sub.equal", "sub.borrow", "sub.plain",
              "sop.u4=0", "sop.u4=1.r<q", "sop.u4=1.r>=q", "sop.u4>=2",
              "sop4.u4=0", "sop4.u4=1", "sop4.u4=2", "sop4.u4>=3"}
 \* ---------------------------------------------------------------- conversions
